@@ -260,7 +260,9 @@ func repeating(symbols []pr.NamedString, value int) (string, bool) {
 	if len(symbols) == 0 {
 		return "", false
 	}
-	return symbol(symbols[(value-1)%len(symbols)]), true
+	L := len(symbols)
+	// Go's % truncates towards zero: (value-1)%L is negative for value <= 0
+	return symbol(symbols[((value-1)%L+L)%L]), true
 }
 
 // Implement the algorithm for `type: non-repeating`.
